@@ -14,7 +14,7 @@ RULE = ('simulated sessions (as C09): 1-3 boards (quick) / 1-6 (thorough), each 
         'json.load(output file) equals the document computed by the independent models on number and order of boards, '
         'board_id, dealer, vulnerability, deal, bid_history, contract, declarer, play_history (leader + 4 cards per '
         'trick), taken_trick (declarer\'s side), scores (model scorer; NS = -EW; passed out => null play/tricks, 0/0); '
-        'metamorphic: the file written under the second schedule is byte-identical. A few sessions per run (more in the thorough tier) are played once more on REAL threads over REAL loopback sockets (only the server\'s 1 s pauses shortened): same oracles, byte-identical log and identical transcripts required; a wall-clock safety net there means inconclusive. evaluations = sessions run. '
+        'metamorphic: the file written under the second schedule is byte-identical. A few sessions per run (more in the thorough tier) are played once more on REAL threads over REAL loopback sockets (only the server\'s 1 s pauses shortened): same oracles, byte-identical log and identical transcripts required; a wall-clock safety net there means inconclusive. One session per run has 101 (thorough: 257) configured boards. evaluations = sessions run. '
         'Non-trivial = session with a played board in which declarer\'s side is EW, or the contract is doubled/redoubled, '
         'or dummy leads a trick, run under a non-sequential schedule; distinct by scenario hash.')
 ASSUMPTIONS = ['simulation kernel fidelity (DESIGN.md 4.3/4.5)', 'fields the statement does not mention (players, score_type, dda) belong to C12']
@@ -27,7 +27,7 @@ def plan(tier):
     # the same scenarios once more on real threads + real loopback sockets (differential against the simulator, and the
     # oracles in their own right)
     nr, perr = (4, 4) if tier == 'quick' else (16, 40)
-    return sh + [{'kind': 'real-sockets', 'n': perr, 'max_boards': 2, 'play_prob': 2} for _ in range(nr)]
+    return sh + [{'kind': 'real-sockets', 'n': perr, 'max_boards': 2, 'play_prob': 2} for _ in range(nr)] + [{'kind': 'long-session', 'boards': 101 if tier == 'quick' else 257}]
 
 
 def check_session(scenario, schedule, stats=None, schedule2=None, real_sockets=False, **kw):
@@ -71,7 +71,22 @@ def check_real(scenario, stats=None):
         stats.cls('sessions repeated on real threads + loopback sockets (byte-identical log, same transcripts)')
 
 
+def long_scenario(n):
+    """"every non-empty list of boards": a configured list longer than the 100 boards of a session without settings."""
+    owner = [(c // 13 + (c % 13) % 4) % 4 for c in range(52)]
+    boards = [{'id': f'L{i + 1}', 'dealer': i % 4, 'vul': ['None', 'NS', 'EW', 'Both'][(i // 4) % 4], 'owner': owner, 'dda': None,
+               'calls': [35, 35, 35, 35], 'cards': []} for i in range(n)]
+    return {'boards': boards, 'teams': ['ns', 'ew'], 'arrival': [0, 1, 2, 3], 'fmt': {}, 'intruders': []}
+
+
 def run_shard(spec, seed, tier, stats):
+    if spec['kind'] == 'long-session':
+        try:
+            check_session(long_scenario(spec['boards']), {'kind': 'sequential'}, stats)
+            stats.cls(f'one session of {spec["boards"]} configured boards (all passed out)')
+        except Violation as v:
+            return [v]
+        return []
     if spec['kind'] == 'real-sockets':
         v = run_hypothesis(lambda scenario: check_real(scenario, stats), {'scenario': SE.SCENARIO(1, spec['max_boards'], spec['play_prob'])},
                            seed, spec['n'], False)
